@@ -23,14 +23,15 @@ theorem lf62_ident_shape {dim : Nat → Nat} {e : Label → Nat} {t t1 : TTN} {g
       (∀ j, j ≠ i → v1.tens j = v.tens j) ∧ v1.next = v.next + 2 ∧
       (∀ l, l ∈ v1.legs i → l = v.next ∨ l = v.next + 1) ∧
       (∀ k ∈ v.ids, ∀ l ∈ v1.legs k, l ∈ v.legs k) ∧
-      ((p.1 ∈ v.legs c ∧ p.2 ∈ v.legs n) ∨ (p.1 ∈ v.legs n ∧ p.2 ∈ v.legs c)) := by
+      ((p.1 ∈ v.legs c ∧ p.2 ∈ v.legs n) ∨ (p.1 ∈ v.legs n ∧ p.2 ∈ v.legs c)) ∧
+      dim (v.next + 1) = dim p.1 := by
   cases hr1 with
   | cons hadm hst hr =>
     cases hr
     cases hst with
     | ident hstep hp hpab hdim =>
-      obtain ⟨_, hperm, _⟩ := ident_sim_core dim e h hl hv hs hadm hstep hp hpab hdim
-      refine ⟨_, hp, hpab, hadm, rfl, rfl, ?_, rfl, ?_, ?_, ?_⟩
+      obtain ⟨⟨_, hdimp⟩, hperm, _⟩ := ident_sim_core dim e h hl hv hs hadm hstep hp hpab hdim
+      refine ⟨_, hp, hpab, hadm, rfl, rfl, ?_, rfl, ?_, ?_, ?_, hdimp⟩
       · intro j hj
         simp [simIdent, reLeg, identStep, hj]
       · intro l hl'
@@ -61,7 +62,7 @@ theorem truncate_node_child_flat_value (dim : Nat → Nat) (e : Label → Nat) {
       ∀ σ, v'.value dim σ =
         netValue dim (v.bonds.erase p ++ (lf62Ins v p Pi).cut) ((lf62Ins v p Pi).Pm :: v.ids.map v.tens) σ := by
   obtain ⟨_, _, _, _, _, vw1, _, _, val2, _⟩ := truncate_node_value dim e h hl hv hs hr1 hPi hr2
-  obtain ⟨p, hp, hpab, hnone, hids, hbonds, htens, _, _, _, _⟩ := lf62_ident_shape h hl hv hs hr1
+  obtain ⟨p, hp, hpab, hnone, hids, hbonds, htens, _, _, _, _, _⟩ := lf62_ident_shape h hl hv hs hr1
   refine ⟨p, hp, hpab, ?_⟩
   intro σ
   have hi : ids.ident c ∉ v.ids := fun hm => (hs.ids _).1 hm hnone
